@@ -27,6 +27,9 @@ type FucCfg struct {
 	Safety   bool     `json:"safety,omitempty"`
 	Only     []string `json:"only,omitempty"`     // module names; empty = every module
 	Optional bool     `json:"optional,omitempty"` // absence is not an anchor failure (e.g. functions that exist in one module only)
+	Spec     map[string]string `json:"spec,omitempty"`      // specialise interface-typed parameters to a dynamic type: {"reader": "*restlicodec.ror2Reader"}
+	SkipKinds []string `json:"skip_kinds,omitempty"`        // safety kinds not claimed for this function (each is listed as an assumption)
+	Exclude  []string `json:"exclude,omitempty"`            // with a '*' pattern: function names (substring) to leave out
 }
 
 type PropConfig struct {
@@ -157,14 +160,32 @@ func cmdCheck(args []string) int {
 				if *only != "" && !strings.Contains(fname(fn), *only) {
 					continue
 				}
-				seen[fn] = true
-				runs = append(runs, &FuncRun{Mod: m, Fn: fn, Name: mc.Name + "/" + fname(fn), Cfg: fc})
+				skip := false
+				for _, x := range fc.Exclude {
+					if strings.Contains(fname(fn), x) {
+						skip = true
+					}
+				}
+				if skip {
+					continue
+				}
+				name := mc.Name + "/" + fname(fn)
+				if len(fc.Spec) > 0 {
+					name += "[" + specSuffix(fn, fc.Spec) + "]"
+				} else {
+					seen[fn] = true
+				}
+				runs = append(runs, &FuncRun{Mod: m, Fn: fn, Name: name, Cfg: fc})
 			}
 		}
 		// a contract block naming a function that does not exist is an anchor failure too (only for blocks that
 		// carry clauses owned by this property)
 		for name, c := range m.DB.byFunc {
-			if c.Trusted || m.Funcs[name] != nil {
+			base := name
+			if i := strings.Index(base, "["); i > 0 {
+				base = base[:i]
+			}
+			if c.Trusted || m.Funcs[base] != nil {
 				continue
 			}
 			if strings.HasPrefix(c.File, verifRoot) {
@@ -184,6 +205,14 @@ func cmdCheck(args []string) int {
 		r.Enc.mod = r.Mod.Name
 		r.Enc.prop = cfg.ID
 		r.Enc.safety = r.Cfg.Safety
+		r.Enc.spec = r.Cfg.Spec
+		if len(r.Cfg.Spec) > 0 {
+			r.Enc.specName = fname(r.Fn) + "[" + specSuffix(r.Fn, r.Cfg.Spec) + "]"
+			if sc := r.Mod.DB.byFunc[r.Enc.specName]; sc != nil {
+				r.Enc.con = sc
+			}
+		}
+		r.Enc.skipKinds = r.Cfg.SkipKinds
 		func() {
 			defer func() {
 				if x := recover(); x != nil {
@@ -372,6 +401,16 @@ func cmdCheck(args []string) int {
 		return 1
 	}
 	return 0
+}
+
+func specSuffix(fn *ssa.Function, spec map[string]string) string {
+	var parts []string
+	for _, p := range fn.Params {
+		if t, ok := spec[p.Name()]; ok {
+			parts = append(parts, p.Name()+"="+t)
+		}
+	}
+	return strings.Join(parts, ",")
 }
 
 func contains(xs []string, x string) bool {
